@@ -52,6 +52,9 @@ package rjson
 //@   loop 1 invariant @sim qis(Rq(data, p), "InValue.NumFrac@*") && qctx(Rq(data, p)) == qctx(Rq(data, old(p))) && sameframe(data, p, old(p))
 //@   loop 1 decreases pe - p
 //
+//@ func errUnexpectedByteInString(b) (r)
+//@   ensures r != nil
+//
 //@ func growBytesSliceCapacity(slice, size) (r)
 //@   ensures len(r) == len(slice) && cap(r) >= size && cap(r) >= cap(slice)
 //@   ensures forall(j, 0, len(slice), r[j] == slice[j])
@@ -155,6 +158,8 @@ package rjson
 //@ func unescapeStringContent(data, dst) (val, p, err)
 //@   input data
 //@   cuts st_case_*
+//@   candidates len(dst) >= len(old(dst)); forall(j, 0, len(old(dst)), dst[j] == old(dst)[j])
+//@   ensures [C16] err == nil ==> len(val) >= len(dst) && forall(j, 0, len(dst), val[j] == dst[j])
 //@   candidates 0 <= p; p < pe; 0 <= segStart; segStart <= p
 //@   candidates p == segStart + 1; p == segStart + 2; p == segStart + 3; p == segStart + 4; p == segStart + 5
 //@   measure pe - p
@@ -163,6 +168,8 @@ package rjson
 //@ func appendRemainderOfString(data, dst) (val, p, err)
 //@   input data
 //@   cuts st_case_*
+//@   candidates len(dst) >= len(old(dst)); forall(j, 0, len(old(dst)), dst[j] == old(dst)[j])
+//@   ensures [C16] err == nil ==> len(val) >= len(dst) && forall(j, 0, len(dst), val[j] == dst[j])
 //@   candidates 0 <= p; p < pe; 0 <= segStart; segStart <= p
 //@   candidates p == segStart + 1; p == segStart + 2; p == segStart + 3; p == segStart + 4; p == segStart + 5
 //@   measure pe - p
@@ -170,6 +177,7 @@ package rjson
 //
 //@ func UnescapeStringContent(data, dst) (val, p, err)
 //@   input data
+//@   ensures [C16] err == nil ==> len(val) >= len(dst) && forall(j, 0, len(dst), val[j] == dst[j])
 //@   ensures err == nil ==> 0 <= p && p <= len(data)
 // ---------------------------------------------------------------- public wrappers
 //@ func SkipValue(data, buffer) (p, err)
@@ -321,6 +329,8 @@ package rjson
 //
 //@ func ReadStringBytes(data, buf) (val, p, err)
 //@   input data
+//@   ensures [C16] err == nil ==> len(val) >= len(buf) && forall(j, 0, len(buf), val[j] == buf[j])
+//@   loop 1 invariant len(buf) == len(old(buf)) && forall(j, 0, len(old(buf)), buf[j] == old(buf)[j])
 //@   ensures err == nil ==> 0 <= p && p <= len(data)
 //@   ensures [C13] err == nil ==> tokclass(data[wsrun(data, 0)]) == 2
 //@   loop 1 invariant 0 < start && start <= p && p <= len(data)
